@@ -4,7 +4,7 @@ cd /verif
 d="seeded/$1"
 prop=$(/venv/bin/python -c "import json;print(json.load(open('$d/meta.json'))['property'])")
 checks=$(/venv/bin/python -c "import json;m=json.load(open('$d/meta.json'));print(' '.join(m.get('caught_by_checks') or [m['property']]))")
-res=$(tools/try_mutant.sh "$d/patch.diff" $checks 2>&1)
+res=$(TXSIM_STOP_ON_VIOLATION=1 tools/try_mutant.sh "$d/patch.diff" $checks 2>&1)
 if echo "$res" | grep -q "exit=1 :: [1-9]"; then
   echo "CAUGHT $1 ($prop): $(echo "$res" | grep "^C[0-9][0-9]\." | head -1 | cut -c1-140)"
 else
